@@ -382,8 +382,12 @@ static std::string obj_line(const upa::url& u, std::string& preds) {
     std::string s = dump(u) + sp_dump(u, preds);
     if (u.is_valid()) {
         // the raw offsets, zeros of never-started parts included (compared with the representation-level object model)
+        // the whole raw representation: offsets with their zeros / the modelled flag bits / segment count / scheme index / string
         s += " rpe=";
         for (int i = 0; i < upa::url::PART_COUNT; ++i) { if (i) s += ','; s += std::to_string(access::part_end(u, i)); }
+        const unsigned fl = access::flags(u);
+        s += "/h" + std::to_string((fl >> 5) & 1) + "p" + std::to_string((fl >> 6) & 1) + "q" + std::to_string((fl >> 9) & 1) + "f" + std::to_string((fl >> 10) & 1) + "o" + std::to_string((fl >> 11) & 1) + "t" + std::to_string((fl >> 13) & 7);
+        s += "/" + std::to_string(access::seg(u)) + "/" + std::to_string(access::scheme_index(u)) + "/" + hx(access::norm(u));
     }
     return s;
 }
@@ -487,6 +491,9 @@ static const upa::code_point_set* set_of(const std::string& s) {
 }
 
 static std::string opt_bytes(const std::string* s) { return s ? "1:" + hx(*s) : "0"; }
+
+static uint8_t g_set_from = 0, g_set_to = 0, g_set_excl = 0;
+static void init_user_set(upa::code_point_set& self) { self.include(g_set_from, g_set_to); self.exclude(g_set_excl); }
 
 static std::string exec(const std::vector<std::string>& t, std::string& preds) {
     const std::string& op = t[0];
@@ -645,6 +652,15 @@ static std::string exec(const std::vector<std::string>& t, std::string& preds) {
         const int d = std::atoi(t[2].c_str()), s = std::atoi(t[3].c_str());
         const std::string& o = t[1];
         if (o == "clear") g_url[d].clear();
+        else if (d == s) {
+            // self operations: assignment, move assignment, safe_assign and swap of an object with itself leave it unchanged
+            upa::url& x = g_url[d];
+            upa::url& y = g_url[s];
+            if (o == "copya") x = y;
+            else if (o == "movea") x = std::move(y);
+            else if (o == "swap") { using std::swap; swap(x, y); }
+            else if (o == "safea") x.safe_assign(std::move(y));
+        }
         else if (d != s) {
             if (o == "copya") g_url[d] = g_url[s];
             else if (o == "copyc") { upa::url c(g_url[s]); g_url[d].~url(); new (&g_url[d]) upa::url(c); }
@@ -687,6 +703,7 @@ static std::string exec(const std::vector<std::string>& t, std::string& preds) {
         else if (o == "sort") sp.sort();
         else if (o == "clear") sp.clear();
         else if (o == "aset2") { if (sp.empty()) r = "0"; else { sp.set(std::prev(sp.end(), sp.size() >= 2 ? 2 : 1)->first, sp.begin()->second); amut = true; } }
+        else if (o == "selfsafea") { upa::url_search_params& q = sp; sp.safe_assign(std::move(q)); }   // the parameters moved into themselves: unchanged
         else if (o == "aparse") {
             // the argument is a view of one of the list's own values: sp.parse(*sp.get(name))
             const std::string* v = with_arg(E(0), A(0), [&](auto&& n) { return sp.get(n); });
@@ -750,6 +767,7 @@ static std::string exec(const std::vector<std::string>& t, std::string& preds) {
         else if (o == "aappend") { if (p.empty()) r = "0"; else p.append(p.begin()->first, p.begin()->second); }
         else if (o == "aset") { if (p.empty()) r = "0"; else p.set(p.begin()->first, std::prev(p.end())->second); }
         else if (o == "aset2") { if (p.empty()) r = "0"; else p.set(std::prev(p.end(), p.size() >= 2 ? 2 : 1)->first, p.begin()->second); }
+        else if (o == "selfsafea") { upa::url_search_params& q = p; p = std::move(q); r = std::to_string(p.size()); }   // a standalone object moved into itself: unchanged
         else if (o == "adel") { if (p.empty()) r = "0"; else p.del(std::prev(p.end(), p.size() >= 2 ? 2 : 1)->first); }
         else if (o == "adel2") { if (p.empty()) r = "0"; else p.del(std::prev(p.end())->first, std::prev(p.end())->second); }
         else if (o == "size") r = std::to_string(p.size());
@@ -849,6 +867,15 @@ static std::string exec(const std::vector<std::string>& t, std::string& preds) {
         if (t[1] == "component" && (g_line % 2))
             return hx(with_arg(t[2], units, [&](auto&& a) { return upa::encode_url_component(a); }));
         return hx(with_arg(t[2], units, [&](auto&& a) { return upa::percent_encode(a, *set); }));
+    }
+    if (op == "pencset" && t.size() == 6) {
+        // a user-built no-encode set, made at run time through the public constructor: include(from, to), exclude(excl)
+        g_set_from = static_cast<uint8_t>(std::strtoul(t[1].c_str(), nullptr, 16));
+        g_set_to = static_cast<uint8_t>(std::strtoul(t[2].c_str(), nullptr, 16));
+        g_set_excl = static_cast<uint8_t>(std::strtoul(t[3].c_str(), nullptr, 16));
+        const upa::code_point_set set(&init_user_set);
+        const auto units = parse_units(t[5]);
+        return hx(with_arg(t[4], units, [&](auto&& a) { return upa::percent_encode(a, set); }));
     }
     if (op == "pdec" && t.size() == 3) {
         const auto units = parse_units(t[2]);
